@@ -82,6 +82,8 @@ impl CaseInfo {
 pub struct Fail {
     pub key: String,
     pub msg: String,
+    /// what the case covered, recorded in the evidence when the failure is a listed finding
+    pub info: Option<Box<CaseInfo>>,
 }
 
 impl Fail {
@@ -89,7 +91,12 @@ impl Fail {
         Self {
             key: key.into(),
             msg: msg.into(),
+            info: None,
         }
+    }
+    pub fn with_info(mut self, info: CaseInfo) -> Self {
+        self.info = Some(Box::new(info));
+        self
     }
 }
 
@@ -547,7 +554,7 @@ where
                                 if ctx.classify(&fail) {
                                     // listed finding: count and carry on
                                     if !failed.load(Ordering::Relaxed) {
-                                        ctx.record(&v, &CaseInfo::trivial());
+                                        ctx.record(&v, fail.info.as_deref().unwrap_or(&CaseInfo::trivial()));
                                     }
                                     Ok(())
                                 } else {
@@ -666,7 +673,7 @@ impl Ctx {
             }
             Err(fail) => {
                 if self.classify(&fail) {
-                    self.record(case, &CaseInfo::trivial());
+                    self.record(case, fail.info.as_deref().unwrap_or(&CaseInfo::trivial()));
                     true
                 } else {
                     self.violation(arm, case, &fail);
